@@ -2532,18 +2532,24 @@ pub fn try_slatepack_sync_workflow(
 					if test_mode {
 						None
 					} else {
-						match HttpSlateSender::with_socks_proxy(
-							&tor_addr.to_http_str(),
-							&tor_config.as_ref().unwrap().socks_proxy_addr,
-							&tor_config.as_ref().unwrap().send_config_dir,
-							tor_config.as_ref().unwrap().bridge.clone(),
-							tor_config.as_ref().unwrap().proxy.clone(),
-						) {
-							Ok(s) => Some(s),
-							Err(e) => {
-								debug!("Send (TOR): Cannot create TOR Slate sender {:?}", e);
+						match tor_config.as_ref() {
+							None => {
+								debug!("Send (TOR): No TOR configuration available");
 								None
 							}
+							Some(tc) => match HttpSlateSender::with_socks_proxy(
+								&tor_addr.to_http_str(),
+								&tc.socks_proxy_addr,
+								&tc.send_config_dir,
+								tc.bridge.clone(),
+								tc.proxy.clone(),
+							) {
+								Ok(s) => Some(s),
+								Err(e) => {
+									debug!("Send (TOR): Cannot create TOR Slate sender {:?}", e);
+									None
+								}
+							},
 						}
 					}
 				}
